@@ -246,6 +246,129 @@ def verdict (f : Final) : Verdict :=
 
 def Verdict.clean (v : Verdict) : Bool := v.leaked.isEmpty && v.dangling.isEmpty && v.dbl.isEmpty && v.foreign.isEmpty
 
+/-! ## number level: the process's descriptor table, whatever it holds at entry
+
+`run` knows slots, not numbers.  `runK` is the same machine run against a kernel table: the numbers open
+in the process (`tab`), the number each slot of the operation is bound to (`bind`), and the numbers the
+kernel handed out (`nums`).  A creation receives the LOWEST number that is free — so with 0, 1 or 2 free
+at entry the operation's descriptors land on the standard numbers; a release frees the number its slot is
+bound to.  `Props/C12.lean` proves that `runK` is `run` plus bookkeeping, and that for EVERY entry table an
+accepted script leaves the table as it found it, plus exactly one fresh number per descriptor handed out. -/
+
+/-- lowest number `≥ n` that is not in `t`, trying at most `fuel` candidates -/
+def lfGo (t : List Nat) : Nat → Nat → Nat
+  | 0, n => n
+  | f + 1, n => if t.contains n then lfGo t f (n + 1) else n
+
+/-- the number the kernel hands out next: the lowest one not in the table -/
+def lowestFree (t : List Nat) : Nat := lfGo t t.length 0
+
+/-- `some n`: a descriptor, number `n`; `none`: a mapping (takes no number) -/
+abbrev Binding := Var × Option Nat
+
+def lookupB : List Binding → Var → Option (Option Nat)
+  | [], _ => none
+  | (w, m) :: r, v => if w = v then some m else lookupB r v
+
+def unbind : List Binding → Var → List Binding
+  | [], _ => []
+  | (w, m) :: r, v => if w = v then r else (w, m) :: unbind r v
+
+/-- the numbers held through the bindings -/
+def numsOf : List Binding → List Nat
+  | [] => []
+  | (_, some n) :: r => n :: numsOf r
+  | (_, none) :: r => numsOf r
+
+structure KTab where
+  /-- every number open in the process -/
+  tab : List Nat
+  /-- the operation's slots -/
+  bind : List Binding
+  /-- the numbers its creations received, most recent first -/
+  nums : List Nat
+deriving Repr, DecidableEq
+
+def KTab.open1 (k : KTab) (v : Var) : KTab :=
+  let n := lowestFree k.tab
+  ⟨n :: k.tab, (v, some n) :: k.bind, n :: k.nums⟩
+
+def KTab.map1 (k : KTab) (v : Var) : KTab := { k with bind := (v, none) :: k.bind }
+
+/-- release of slot `v`: its number leaves the table.  For a slot the operation does not hold the model
+    cannot say which number the code passes: the table is left alone (`St` records it as foreign/double) -/
+def KTab.close1 (k : KTab) (v : Var) : KTab :=
+  match lookupB k.bind v with
+  | some (some n) => { k with tab := k.tab.erase n, bind := unbind k.bind v }
+  | some none => { k with bind := unbind k.bind v }
+  | none => k
+
+def KTab.applyOk (k : KTab) : Eff → KTab
+  | .none => k
+  | .opens v => k.open1 v
+  | .opens2 v w => (k.open1 v).open1 w
+  | .closes v => k.close1 v
+  | .maps v => k.map1 v
+  | .unmaps v => k.close1 v
+
+def KTab.applyErr (k : KTab) : Eff → KTab
+  | .closes v => k.close1 v
+  | _ => k
+
+/-- `run`, against a kernel table (the forked child starts from a copy of the caller's table) -/
+def runK : Nat → Script → Cfg → KTab → Final × KTab
+  | 0, _, c, k => (⟨.fuel, c⟩, k)
+  | _ + 1, .ret ok h, c, k => (⟨.ret ok h, c⟩, k)
+  | _ + 1, .exits, c, k => (⟨.exits, c⟩, k)
+  | _ + 1, .execs, c, k => (⟨.execs, c⟩, k)
+  | n + 1, .sys name eff ok err, c, k =>
+    match c.ans with
+    | [] => (⟨.starved, c⟩, k)
+    | .ok v :: rest =>
+      runK n ok { c with st := c.st.applyOk eff, last := .ok v, ans := rest, trace := name :: c.trace } (k.applyOk eff)
+    | .err e :: rest =>
+      runK n err { c with st := c.st.applyErr eff, last := .err e, ans := rest, trace := name :: c.trace } (k.applyErr eff)
+  | n + 1, .ifVal v t f, c, k =>
+    match c.last with
+    | .ok w => if w = v then runK n t c k else runK n f c k
+    | .err _ => runK n f c k
+  | n + 1, .ifErr e t f, c, k =>
+    match c.last with
+    | .err w => if w = e then runK n t c k else runK n f c k
+    | .ok _ => runK n f c k
+  | n + 1, .step _ y no, c, k =>
+    match c.steps with
+    | [] => (⟨.starved, c⟩, k)
+    | true :: rest => runK n y { c with steps := rest } k
+    | false :: rest => runK n no { c with steps := rest } k
+  | n + 1, .loop body, c, k => runK n body { c with stack := body :: c.stack } k
+  | n + 1, .again, c, k =>
+    match c.stack with
+    | [] => (⟨.stuck, c⟩, k)
+    | b :: _ => runK n b c k
+  | n + 1, .exit kk, c, k =>
+    match c.stack with
+    | [] => (⟨.stuck, c⟩, k)
+    | _ :: rest => runK n kk { c with stack := rest } k
+  | n + 1, .fork p ch e, c, k =>
+    match c.ans with
+    | [] => (⟨.starved, c⟩, k)
+    | .err x :: rest => runK n e { c with last := .err x, ans := rest, trace := "fork" :: c.trace } k
+    | .ok v :: rest =>
+      match c.child with
+      | none => runK n p { c with last := .ok v, ans := rest, trace := "fork" :: c.trace } k
+      | some (ca, cs) =>
+        runK n ch { c with last := .ok 0, ans := ca, steps := cs, child := none, trace := "fork" :: c.trace } k
+
+/-- the table at entry: `foreign` = the numbers open that are not the operation's (ANY set: 0, 1, 2 may be
+    missing), `own` = the slots it is given with their numbers -/
+def KTab.init (foreign : List Nat) (own : List (Var × Nat)) : KTab :=
+  ⟨own.map (·.2) ++ foreign, own.map (fun p => (p.1, some p.2)), []⟩
+
+/-- run an operation entered with the table `foreign` + `own` -/
+def execK (foreign : List Nat) (own : List (Var × Nat)) (s : Script) (fuel : Nat) (o : Oracle) : Final × KTab :=
+  runK fuel s (Cfg.init (own.map (·.1)) o) (KTab.init foreign own)
+
 /-! ## The operations of tiny-std, one script each (read off the code as it is)
 
 `cur` = the code as it is now (after the `fix:` commits of this property); `old` = the same operation
@@ -486,7 +609,7 @@ inductive Stdio where
 deriving DecidableEq, Repr
 
 /-- stream `i`: the child's end is var `2i`, the caller's end (MakePipe) var `2i+1`; the CLOEXEC pipe is
-    (6 = read end, 7 = write end).  `Stdio::RawFd(fd)` is wrapped in an `OwnedFd`: owned on entry. -/
+    (6 = read end, 7 = write end).  In `opens2 a b`, `a` is the read end (the kernel creates it first).  `Stdio::RawFd(fd)` is wrapped in an `OwnedFd`: owned on entry. -/
 def theirs : List Stdio → Nat → List Var
   | [], _ => []
   | .inherit :: r, i => theirs r (i + 1)
@@ -510,7 +633,9 @@ def setupIo : List Stdio → Nat → List Var → Script → Script
   | .null :: r, i, held, k =>
     .sys "openat" (.opens (2 * i)) (setupIo r (i + 1) (2 * i :: held) k) (closeAll held err)
   | .pipe :: r, i, held, k =>
-    .sys "pipe2" (.opens2 (2 * i + 1) (2 * i)) (setupIo r (i + 1) ((2 * i + 1) :: 2 * i :: held) k) (closeAll held err)
+    -- `opens2 a b`: `a` = read end (created first).  The child READS stdin (stream 0), writes the others
+    .sys "pipe2" (if i = 0 then .opens2 (2 * i) (2 * i + 1) else .opens2 (2 * i + 1) (2 * i))
+      (setupIo r (i + 1) ((2 * i + 1) :: 2 * i :: held) k) (closeAll held err)
 
 /-- one child-side set-up call; a failure used to `?`-return from `spawn` INSIDE the child (drops
     `theirs`, `ours`; the read end is already closed, the write end stays open); now it is reported through
